@@ -251,7 +251,15 @@ template <uint8_t K> struct Stress {
             else if (std::chrono::duration<double>(now - tlast).count() > 3.0) { stalled = true; break; }
             // overall deadline (a normal run takes 1-2 s): e.g. a lost m_ReadCount increment does not stop the pipe, it makes
             // every WriterTryReadFront walk an ever longer stretch of dead indices
-            if (std::chrono::duration<double>(now - t0).count() > max_seconds) { stalled = true; break; }
+            // The deadline is measured in CPU time of this process (all threads), scaled by the number of worker threads, not in
+            // wall time: on an idle machine the two agree (every thread spins), on a loaded machine a starved run is just slow
+            // and must not be reported (observed false alarm: 20 busy loops + other checks, 141492/400000 items after 12 s wall,
+            // indices consistent, everything accepted was delivered).
+            {
+                struct timespec ts; clock_gettime(CLOCK_PROCESS_CPUTIME_ID, &ts);
+                double cpu = (double)ts.tv_sec + 1e-9 * (double)ts.tv_nsec;
+                if (cpu > max_seconds * (double)(readers + 1)) { stalled = true; break; }
+            }
         }
         stop = 1;
         {
